@@ -909,6 +909,6 @@ MUTANTS = [
     Mut("utf8-tail-not-awaited", _E, "process_keyqueue", "            if len(codes) <= i:\n                if more_available:\n                    raise MoreInputRequired()\n", "            if len(codes) <= i:\n", "PAIR|display.escape.process_keyqueue"),
     Mut("sgr-mouse-int-unguarded", _E, "KeyqueueTrie.read_sgrmouse_info", "        try:\n            (b, x, y) = (int(val) for val in fields)\n        except ValueError:\n            # malformed report (wrong number of fields): not a known sequence\n            return None", "        (b, x, y) = (int(val) for val in fields)", "EXC|"),
     Mut("partial-codes-not-kept", _R, "urwid.display._raw_display_base.Screen.parse_input", "            self._partial_codes = codes\n", "", "ORDER|"),
-    Mut("timeout-not-cancelled-before-parse", _R, "urwid.display._raw_display_base.Screen.parse_input", "        if self._input_timeout and event_loop:\n            event_loop.remove_alarm(self._input_timeout)\n            self._input_timeout = None\n", "", "ORDER|"),
+    Mut("timeout-not-cancelled-before-parse", _R, "urwid.display._raw_display_base.Screen.parse_input", "        if self._input_timeout is not None and event_loop:\n            event_loop.remove_alarm(self._input_timeout)\n            self._input_timeout = None\n", "", "ORDER|"),
     Mut("twin-mouse-info-guard-merged", _E, "KeyqueueTrie.read_mouse_info", "        if len(keys) < 3:\n            if more_available:\n                raise MoreInputRequired()\n            return None", "        if len(keys) < 3 and more_available:\n            raise MoreInputRequired()\n        if len(keys) < 3:\n            return None", twin=True),
 ]
